@@ -1025,9 +1025,15 @@ def callers_guard(aud, key, callee_arg_pat, entries_reach):
                 continue
             n += 1
             board = norm(c['argvals'][0])
-            gs = [(norm(g['cond']), truth(g)) for g in guards(s, c['blk']) if g['cond'] is not None]
-            want = call('core::option::Option::<T>::is_some', call('board::Board::en_passant', V('b')))
-            if not any(match(want, g) is not None and tv is True for g, tv in gs):
+            gl = [g for g in guards(s, c['blk']) if g['cond'] is not None]
+            gs = [(norm(g['cond']), truth(g)) for g in gl]
+            ep = call('board::Board::en_passant', V('b'))
+            want = call('core::option::Option::<T>::is_some', ep)
+            wantn = call('core::option::Option::<T>::is_none', ep)
+            some = any(match(want, g) is not None and tv is True for g, tv in gs) or \
+                any(match(wantn, g) is not None and tv is False for g, tv in gs) or \
+                any(norm(g['cond'])[0] == 'discr' and match(ep, norm(g['cond'])[1]) is not None and g['vals'] == [1] for g in gl)
+            if not some:
                 ok = False
     return ok and n > 0, n
 
@@ -1094,7 +1100,7 @@ def audit(ctx, R, entries, config='default'):
                         opnd == 'board::Board::en_passant(*arg1)':
                     okc, n = callers_guard(aud, k, None, reach)
                     if okc:
-                        why = 'callers: all %d reachable call sites are dominated by en_passant().is_some()' % n
+                        why = 'callers: all %d reachable call sites are dominated by en_passant() being Some (is_some() / `if let Some`)' % n
             if why:
                 ctx.ok(R, '%s -- %s' % (desc, why), where(body, c['line']))
             else:
